@@ -16,7 +16,7 @@ EXPLANATION = (
     'least Acquire, every store at least Release, and the timer counter is only touched by an atomic read-modify-write; R08.d the '
     'eviction test reads the waker count before the woken flag with an Acquire fence in between (the reverse of the order in which '
     'CommandWaker publishes them); R08.e Command::poll_next registers the host waker before it runs tasks or reads its queues (a resolve on '
-    'another thread landing after the last look but before a late registration would wake nobody). Linearizability of concurrent calls is not decided. R08.f the bridge registry looks up, resolves and removes an entry inside one lock region and resolver state is written only by its own resolve; R08.g update / view take the model through blocking guards of the model lock (shared with C03). R08.j the legacy shell futures check their slot and store their waker inside one region of the shared-state lock, which the resolve closure also takes (shared with C05).')
+    'another thread landing after the last look but before a late registration would wake nobody). Linearizability of concurrent calls is not decided. R08.f the bridge registry looks up, resolves and removes an entry inside one lock region and resolver state is written only by its own resolve; R08.g update / view take the model through blocking guards of the model lock (shared with C03). R08.j the legacy shell futures check their slot and store their waker inside one region of the shared-state lock, which the resolve closure also takes (shared with C05). R08.k every run of the executor in Core::process is followed by a look at the event channel before the call returns (shared with C03 R03.f).')
 
 LOCK_CALLS = ['std::sync::poison::mutex::Mutex::lock', 'std::sync::poison::rwlock::RwLock::read',
               'std::sync::poison::rwlock::RwLock::write', 'std::sync::poison::mutex::Mutex::try_lock']
